@@ -132,8 +132,16 @@ class SourceFile:
     def rewrite(self):
         new_code = self.new_code()
 
-        with open(self.filename, "bw") as code:
-            code.write(new_code.encode())
+        # keep the line endings of the file
+        with open(self.filename, encoding="utf-8", newline=None) as code:
+            code.read()
+            newline = code.newlines
+        if not isinstance(newline, str):
+            # no or mixed line endings
+            newline = "\n"
+
+        with open(self.filename, "w", encoding="utf-8", newline=newline) as code:
+            code.write(new_code)
 
     def virtual_write(self):
         self.source = self.new_code()
